@@ -595,3 +595,90 @@ W["cache_get"] = dict(
              _CACHE_INV],
     native=dict(call=_cache_call, domain=_cache_domain, check=_cache_check, skip_requires=True, skip_ensures=True),
 )
+
+# ------------------------------------------------------------------ constraint.py: Cross.__add_weight_constraint (C23, C01, C02)
+# main.rst "CrossBlock" / weights: each combination occurs weight*crossing_weight times in every complete run of
+# crossing_size*crossing_weight trials, and at most that often in a trailing partial run.  OFF[j] is the offset of chunk j (ghost).
+_LLR = dict(params={"comparison": "obj", "k": "int", "variables": "list[int]"}, returns="obj",
+            ensures=["result.comparison == comparison", "result.k == k", "len(result.variables) == len(variables)",
+                     "forall(i, 0, len(variables), result.variables[i] == variables[i])"])
+_AWC_S = "(crossing_size * crossing_weight)"
+_AWC_CHUNK = ("ite(len(V0) - OFF[j] >= S, "
+              "REQS[j].comparison == 'EQ' and REQS[j].k == weight * crossing_weight and len(REQS[j].variables) == S, "
+              "REQS[j].comparison == 'LT' and REQS[j].k == weight * crossing_weight + 1 and len(REQS[j].variables) == len(V0) - OFF[j]) "
+              "and forall(i, 0, len(REQS[j].variables), REQS[j].variables[i] == V0[OFF[j] + i])")
+
+
+def _awc_domain():
+    for n in range(0, 9):
+        for cs in (1, 2, 3):
+            for cw in (1, 2):
+                for w in (1, 2):
+                    yield dict(variables=list(range(10, 10 + n)), weight=w, crossing_size=cs, crossing_weight=cw)
+
+
+def _awc_check(res, variables, weight, crossing_size, crossing_weight):
+    S = crossing_size * crossing_weight
+    want = []
+    for off in range(0, len(variables), S):
+        ch = variables[off:off + S]
+        want.append(("EQ", weight * crossing_weight, ch) if len(ch) == S else ("LT", weight * crossing_weight + 1, ch))
+    got = [(r.comparison, r.k, list(r.variables)) for r in res]
+    return None if got == want else f"requests {got}, documented {want}"
+
+
+W["add_weight_constraint"] = dict(
+    id="add_weight_constraint", target="sweetpea._internal.constraint:Cross.__add_weight_constraint", prop=["C23", "C01", "C02"],
+    params={"variables": "list[int]", "weight": "int", "crossing_size": "int", "crossing_weight": "int"},
+    attrs={"comparison": "obj", "k": "int", "variables": "list[int]"}, local_types={"reqs": "list[obj]"},
+    uses={"LowLevelRequest": _LLR},
+    ghost={"V0": ("list[int]", "variables"), "OFF": ("list[int]", "[]"), "S": ("int", _AWC_S)},
+    macros={"CHUNK": (["REQS", "j"], _AWC_CHUNK)},
+    requires=["crossing_size >= 1", "crossing_weight >= 1", "weight >= 1"],
+    loops={0: dict(
+        invariant=["S == " + _AWC_S, "S >= 1", "len(OFF) == len(reqs)", "implies(len(OFF) > 0, OFF[0] == 0)", "forall(j, 0, len(OFF) - 1, OFF[j + 1] == OFF[j] + S)",
+                   "to_add == len(V0) - ite(len(OFF) > 0, OFF[len(OFF) - 1] + S, 0)",
+                   "len(variables) == ite(to_add > 0, to_add, 0)",
+                   "forall(i, 0, len(variables), variables[i] == V0[len(V0) - to_add + i])",
+                   "forall(j, 0, len(OFF), OFF[j] < len(V0))",
+                   "forall(j, 0, len(reqs), CHUNK(reqs, j))"],
+        decreases="to_add",
+        ghost_update=["OFF.append(len(V0) - to_add)"])},
+    ensures=["len(result) == len(OFF)", "implies(len(OFF) > 0, OFF[0] == 0)", "forall(j, 0, len(OFF) - 1, OFF[j + 1] == OFF[j] + S)", "S == " + _AWC_S,
+             # the chunks cover the variable list exactly: nothing when it is empty, otherwise the last chunk ends at or after its end
+             "iff(len(result) == 0, len(V0) == 0)",
+             "implies(len(OFF) > 0, OFF[len(OFF) - 1] < len(V0) and len(V0) <= OFF[len(OFF) - 1] + S)",
+             "forall(j, 0, len(result), CHUNK(result, j))"],
+    native=dict(call=lambda f, variables, weight, crossing_size, crossing_weight: f(list(variables), weight, crossing_size, crossing_weight),
+                domain=_awc_domain, check=_awc_check, skip_requires=True, skip_ensures=True),
+)
+
+# ------------------------------------------------------------------ combinatorics.py: construct_permutation (C13)
+# Ghost C[j] = number of unused indices below j (C[0] == 0, C[j+1] == C[j] + [not used[j]]).  Marking index p as used lowers C[j] by one for j > p,
+# so the recurrence is kept by instantiation alone (no induction).  Proved: no IndexError (the scans stay inside `used` because unused indices remain),
+# every entry is an index in [0, orig_n), entries are pairwise distinct (a permutation prefix), and each entry is chosen as the skip-th unused index.
+_CP_U = "ite(used[j], 0, 1)"
+_CP_REC = ["len(C) == orig_n + 1", "len(used) == orig_n", "C[0] == 0", f"forall(j, 0, orig_n, C[j + 1] == C[j] + {_CP_U})"]
+W["construct_permutation"] = dict(
+    id="construct_permutation", target="sweetpea._internal.combinatorics:construct_permutation", prop=["C13"],
+    params={"inversion_sequence": "list[int]", "orig_n": "int"},
+    requires=["orig_n >= 0", "len(inversion_sequence) <= orig_n",
+              "forall(t, 0, len(inversion_sequence), 0 <= inversion_sequence[t] and inversion_sequence[t] < orig_n - t)"],
+    ghost={"C": ("list[int]", "[j for j in range(orig_n + 1)]"), "K": ("int", "0")},
+    loops={0: dict(index="it",
+                   invariant=_CP_REC + ["len(permutation) == len(inversion_sequence)", "C[orig_n] == orig_n - it",
+                                        "forall(t, 0, it, 0 <= permutation[t] and permutation[t] < orig_n and used[permutation[t]])",
+                                        "forall(s, 0, it, forall(t, 0, it, implies(s != t, permutation[s] != permutation[t])))"],
+                   ghost_end=["C = [C[j] - ite(j > idx, 1, 0) for j in range(orig_n + 1)]"]),
+           1: dict(invariant=_CP_REC + ["0 <= idx", "idx < orig_n", "C[idx] == 0", "C[orig_n] == orig_n - it"], decreases="orig_n - idx"),
+           2: dict(invariant=_CP_REC + ["0 <= idx", "idx < orig_n", "skip >= 0", "C[idx] == inversion_sequence[it] - skip", "C[orig_n] == orig_n - it",
+                                        "implies(skip == 0, True)"], decreases="orig_n - idx"),
+           3: dict(invariant=_CP_REC + ["0 <= idx", "idx < orig_n", "C[idx] == inversion_sequence[it]", "C[orig_n] == orig_n - it"], decreases="orig_n - idx")},
+    ensures=["len(result) == len(inversion_sequence)",
+             "forall(t, 0, len(result), 0 <= result[t] and result[t] < orig_n)",
+             "forall(s, 0, len(result), forall(t, 0, len(result), implies(s != t, result[s] != result[t])))"],
+    native=dict(call=lambda f, inversion_sequence, orig_n: f(list(inversion_sequence), orig_n),
+                domain=lambda: ({"inversion_sequence": list(inv), "orig_n": n} for n in range(0, 6) for m in range(0, n + 1)
+                                for inv in _it.product(*[range(n - t) for t in range(m)])),
+                ghost_post=lambda res, inversion_sequence, orig_n: {}),
+)
